@@ -386,8 +386,13 @@ def norm_pair(rl, rr):
     return None
 
 
-def faithful_return(body, sym):
-    """the body's return value is the boolean `sym` (directly, or `if sym {true} else {false}`), under no other condition"""
+def faithful_return(body, syms):
+    """the body's return value is the disjunction of the boolean symbols `syms` (one symbol: that value, directly or as
+    `if sym {true} else {false}`), under no other condition"""
+    import itertools
+    if isinstance(syms, tuple) and syms and not isinstance(syms[0], tuple):
+        syms = [syms]
+    syms = sorted(set(syms))
     exits = body.exits()
     if len(exits) != 1:
         return False, "several return blocks"
@@ -395,17 +400,26 @@ def faithful_return(body, sym):
     if not pcs:
         return False, "cannot enumerate its paths"
     for pc in pcs:
-        other = [k for k in pc if k != "$ret" and k != sym]
+        other = [k for k in pc if k != "$ret" and k not in syms]
         if other:
             return False, "its result also depends on %s" % (other[0],)
-        r = pc["$ret"]
-        if r == sym and sym not in pc:
-            continue
-        if r[0] == "const" and sym in pc:
-            if (pc[sym] != "0") == (str(r[1]) not in ("0", "false")):
+    for vals in itertools.product([False, True], repeat=len(syms)):
+        asg = dict(zip(syms, vals))
+        results = set()
+        for pc in pcs:
+            if any(s_ in asg and (v != "0") != asg[s_] for s_, v in pc.items() if s_ != "$ret"):
                 continue
-            return False, "it returns the negation of the comparison"
-        return False, "it returns something other than the comparison's result"
+            r = pc["$ret"]
+            if r[0] == "const":
+                results.add(str(r[1]) not in ("0", "false"))
+            elif r in asg:
+                results.add(asg[r])
+            else:
+                results.add("?")
+        if results != {any(vals)}:
+            if "?" in results:
+                return False, "it returns something other than the comparison's result"
+            return False, "it is not the disjunction of its %d comparison(s) (for %s it yields %s)" % (len(syms), list(vals), sorted(results))
     return True, ""
 
 
@@ -437,7 +451,17 @@ def R1_existential(ctx, rule, cm):
         hops = 0
         while x.kind == "closure" and x.id != cm["site"][0].id and hops < 6:
             hops += 1
-            f_ok, f_why = faithful_return(x, sym)
+            # all the clause's comparison results that live in this closure: sibling comparisons and nested quantifiers
+            sibs = {sym} | {("call", cbb2) for (cb2, cbb2, ct2, _, _, _) in cm.get("pairs_x", []) if cb2.id == x.id and ct2 is not None}
+            for (cb2, cbb2, ct2, _, _, _) in cm.get("pairs_x", []):
+                y = cb2
+                while y is not None and y.kind == "closure" and y.parent != x.id:
+                    y = ctx.fb.bodies.get(y.parent) if y.parent else None
+                if y is not None and y.kind == "closure" and y.parent == x.id:
+                    for (ub2, ubb2, ut2, ai2) in fl.closure_uses(y):
+                        if ub2.id == x.id:
+                            sibs.add(("call", ubb2))
+            f_ok, f_why = faithful_return(x, sorted(sibs))
             if not f_ok:
                 ok, why, where = False, "the closure %s does not hand on the comparison's result: %s" % (short(x.id), f_why), m.where(x)
                 break
@@ -2269,6 +2293,177 @@ def iter_eq_same_projection(ctx, rule, b, bb, t, what):
               "differing ones equal" % (what, "; ".join(sg[0])[:100], "; ".join(sg[1])[:100]))
 
 
+def operand_shape(e, body=None):
+    """the projection an operand applies, without its root: calls and fields from the outside in (the element index into the
+    pair a zipped closure receives is part of the root)"""
+    out = []
+    x = strip_refs(e)
+    hops = 0
+    while hops < 12:
+        hops += 1
+        if x.kind in ("ref", "deref", "cast"):
+            x = x[2] if x.kind == "ref" else x[1]
+        elif x.kind == "call" and x[2]:
+            out.append(x[1])
+            x = x[2][0]
+        elif x.kind == "field":
+            base = x[1]
+            while base.kind in ("ref", "deref", "cast"):
+                base = base[2] if base.kind == "ref" else base[1]
+            if base.kind in ("arg", "local") and body is not None and isinstance(x[2], int) and \
+                    body.locals[base[1]]["s"].lstrip("&").replace("mut ", "").strip().startswith("("):
+                break       # pair.0 / pair.1: which side, not which attribute
+            out.append(".%s" % (x[2],))
+            x = base
+        elif x.kind == "binop":
+            out.append(x[1])
+            break
+        else:
+            break
+    return out
+
+
+def eq_same_attribute(ctx, rule, eqb, what):
+    """every comparison inside `==` that relates the two values compares the SAME attribute of both (source with source, weight
+    with weight): the two operands apply the same projection to their side"""
+    m, fl = ctx.model, ctx.model.flow
+    n = 0
+    for bid in sorted(m.reach(eqb.id)):
+        b = ctx.fb.bodies[bid]
+        if not (bid == eqb.id or bid.startswith(eqb.id + "::")):
+            continue
+        k = 0
+        for bb, t in b.calls():
+            if (callee_path(t) or "") not in ("std::cmp::PartialEq::eq", "std::cmp::PartialEq::ne") or len(t["args"]) < 2:
+                continue
+            ex = [strip_refs(expr_operand(b, a)) for a in t["args"][:2]]
+            sh = [operand_shape(x, b) for x in ex]
+            if not sh[0] and not sh[1]:
+                continue
+            k += 1
+            n += 1
+            ctx.check(sh[0] == sh[1], rule, "same-attribute|%s|%d" % (short(b.id), k), m.where(b, bb),
+                      "both operands of the comparison are the same attribute of their side (%s)" % (" ".join(x.split("::")[-1] for x in sh[0])[:80]),
+                      "%s compares `%s` of one value with `%s` of the other" % (what, fmt_expr(ex[0], b)[:80], fmt_expr(ex[1], b)[:80]))
+        for bb, si, s_ in b.stmts():
+            if s_["k"] == "assign" and s_["rv"]["k"] == "binop" and s_["rv"]["op"] in ("Eq", "Ne"):
+                ex = [strip_refs(expr_operand(b, a)) for a in (s_["rv"]["a"], s_["rv"]["b"])]
+                sh = [operand_shape(x, b) for x in ex]
+                if not sh[0] and not sh[1]:
+                    continue
+                if any(x.kind == "const" for x in ex):
+                    continue
+                k += 1
+                n += 1
+                ctx.check(sh[0] == sh[1], rule, "same-attribute|%s|%d" % (short(b.id), k), m.where(b, bb),
+                          "both operands of the comparison are the same attribute of their side",
+                          "%s compares `%s` of one value with `%s` of the other" % (what, fmt_expr(ex[0], b)[:80], fmt_expr(ex[1], b)[:80]))
+    return n
+
+
+def eq_monotone(ctx, rule, eqb, what, eq_like_sites=()):
+    """`==` answers `false` only after some comparison found a difference and may answer `true` only if none did: on every
+    decision path of the function, with every test on it understood, a constant `false` is returned only below a failed
+    comparison and a value that can be `true` only below none. (`a != b` for `a == b`, `if all_equal { return false }`.)"""
+    m, fl = ctx.model, ctx.model.flow
+    pcs = []
+    for xb in eqb.exits():
+        r = path_conditions(eqb, xb, ret_local=0)
+        if r is None:
+            return
+        pcs += r
+    sites = set(eq_like_sites)
+
+    def polarity(sym):
+        """+1: true means "equal so far"; -1: true means "differs"; None: not understood; 0: ignore"""
+        if sym[0] == "expr":
+            txt = sym[1]
+            if txt.startswith("Eq("):
+                return 1
+            if txt.startswith("Ne("):
+                return -1
+            return None
+        if sym[0] == "call":
+            t = eqb.blocks[sym[1]]["term"]
+            p = callee_path(t) or ""
+            if p in ("std::cmp::PartialEq::eq", "std::iter::Iterator::eq"):
+                return 1
+            if p in ("std::cmp::PartialEq::ne", "std::iter::Iterator::ne"):
+                return -1
+            if (eqb.id, sym[1]) in sites:
+                return 1
+            return None
+        if sym[0] == "discr":
+            # the variant of an all-pairs-equal consumer's own result (`Continue(x) | Break(x)`): its payload carries the answer
+            for (sb_id, sbb) in sites:
+                if sb_id == eqb.id and str(sym[1]).startswith((callee_path(eqb.blocks[sbb]["term"]) or "?") + "("):
+                    return 0
+            return None
+        if sym[0] in ("assigned", "unknown"):
+            l = sym[2] if sym[0] == "assigned" else sym[1]
+            if eqb.locals[l]["s"] != "bool":
+                return None
+            # every definition of the flag reads the payload of the result of one of the all-pairs-equal consumers
+            defs = get_defs(eqb)
+            roots = set()
+            for kind, dbb, dsi, dx in defs.of(l):
+                root = None
+                if kind == "stmt" and dx["rv"]["k"] == "use" and dx["rv"]["op"]["k"] != "const":
+                    cur = dx["rv"]["op"]["pl"]["l"]
+                    for _ in range(6):
+                        d = defs.unique_full(cur)
+                        if d is None:
+                            break
+                        if d[0] == "call":
+                            root = (eqb.id, d[1])
+                            break
+                        if d[0] == "stmt" and d[3]["rv"]["k"] == "use" and d[3]["rv"]["op"]["k"] != "const":
+                            cur = d[3]["rv"]["op"]["pl"]["l"]
+                            continue
+                        break
+                elif kind == "call":
+                    root = (eqb.id, dbb)
+                roots.add(root)
+            if roots and None not in roots and all(r in sites for r in roots):
+                return 1
+            return None
+        return None
+    bad = None
+    for pc in pcs:
+        ret = pc.get("$ret")
+        neg = False
+        understood = True
+        for sym, v in pc.items():
+            if sym == "$ret" or not isinstance(sym, tuple):
+                continue
+            pol = polarity(sym)
+            if pol is None:
+                understood = False
+                break
+            if pol == 0:
+                continue
+            truth = (v != "0")
+            if (pol == 1 and not truth) or (pol == -1 and truth):
+                neg = True
+        if not understood or ret is None:
+            continue
+        if ret[0] == "const":
+            is_false = str(ret[1]) in ("0", "false")
+            if is_false and not neg:
+                bad = "a path on which every comparison made found equality returns `false`"
+            if not is_false and neg:
+                bad = "a path on which a comparison found a difference returns `true`"
+        else:
+            pr = polarity(ret)
+            if pr == 1 and neg:
+                bad = "a path on which a comparison found a difference goes on to return the result of a later comparison"
+            if pr == -1:
+                bad = "the result of a `!=` / difference test is returned as the value of `==`"
+    ctx.check(bad is None, rule, "monotone|%s" % short(eqb.id), m.where(eqb),
+              "%s answers false only below a failed comparison and can answer true only below none (%d paths)" % (what, len(pcs)),
+              "%s: %s" % (what, bad))
+
+
 def D4(ctx, rule="D4"):
     """PartialEq for FnGraph compares node count, source, target, weight and each function"""
     fb, m, fl = ctx.fb, ctx.model, ctx.model.flow
@@ -2378,6 +2573,7 @@ def D4(ctx, rule="D4"):
                   "FnGraph == does not compare %s: graphs differing in it compare equal" % a)
     # iterates both graphs' raw edges zipped (no filter)
     zips = 0
+    eq_like = []
     for bid in m.reach(eqb.id):
         b = fb.bodies[bid]
         for bb, t in b.calls():
@@ -2413,9 +2609,13 @@ def D4(ctx, rule="D4"):
                                       "== can return true although this pairwise comparison was false or never made")
                     ctx.check(not sel, rule, "zip-unfiltered|%d" % zips, m.where(b, bb), "pairwise comparison over the full zipped sequences", "comparison narrowed by %s" % sel)
                     okc, whyc = conjunctive_consumer(ctx, b, bb, t)
+                    if okc and callee_path(t) in ("std::iter::Iterator::all", "std::iter::Iterator::eq", "std::iter::Iterator::try_fold", "std::iter::Iterator::fold"):
+                        eq_like.append((b.id, bb))
                     ctx.check(okc, rule, "conjunctive|%d" % zips, m.where(b, bb),
                               "the pairwise comparison is a conjunction: one unequal pair makes the result false (%s)" % whyc,
                               "the pairwise comparison is not a conjunction over all pairs: %s" % whyc)
+    eq_same_attribute(ctx, rule, eqb, "FnGraph ==")
+    eq_monotone(ctx, rule, eqb, "FnGraph ==", eq_like)
     if iter_eqs:
         # every `a.eq(b)` result is a conjunct of the returned value: on each path to the return, the result is `false`, or is the
         # comparison itself, or the comparison was found true on the way
@@ -2602,7 +2802,14 @@ def conjunctive_consumer(ctx, b, bb, t):
                 (rv.get("def") == "std::option::Option" and rv.get("variant") == "None"))
             if short_c:
                 n_break += 1
+                o0 = rv["ops"][0] if rv.get("ops") else None
+                if o0 is not None and o0["k"] == "const" and o0.get("ty") == "bool" and str(o0.get("bits", o0.get("val"))) not in ("0", "false"):
+                    return False, "the short-circuit result on an unequal pair carries `true`"
                 continue
+            if rv is not None and rv["k"] == "agg" and rv.get("ops"):
+                o0 = rv["ops"][0]
+                if o0["k"] == "const" and o0.get("ty") == "bool" and str(o0.get("bits", o0.get("val"))) in ("0", "false"):
+                    return False, "the continuing result on an equal pair carries `false`: the fold ends with `false` although every pair was equal"
             # a continuing result requires every comparison to have been true
             gs = {sb: vals for sb, vals in guards_of_(fcl, dbb)}
             for sb, fn in cmps:
